@@ -249,7 +249,28 @@ fn main() {
         let (r2, a2) = (res.clone(), amb.clone());
         cells.push(CellDef::new("C15", format!("P32E2/{}#near", u.name), Space::list32(pts, format!("+-{} encodings around the reduction / regime boundaries and the domain ends", w)), move |k| un_case(&r2, &u, k, &a2)));
     }
-    // NaR and domain guards on the alphabet + lattice (cheap: the cell only checks NaR in / NaR out there)
+    // regression inputs from complete sweeps (known_findings/C15_hard_inputs.txt), with +-2 neighbours
+    if let Ok(txt) = std::fs::read_to_string(format!("{}/known_findings/C15_hard_inputs.txt", cfg.verif_dir)) {
+        for u in unaries() {
+            let mut l: Vec<u32> = vec![];
+            for line in txt.lines() {
+                let mut it = line.split_whitespace();
+                if it.next() == Some(u.name) {
+                    if let Some(k) = it.next().and_then(|h| u32::from_str_radix(h.trim_start_matches("0x"), 16).ok()) {
+                        for d in -2i32..=2 {
+                            l.push(k.wrapping_add(d as u32));
+                        }
+                    }
+                }
+            }
+            if !l.is_empty() {
+                l.sort();
+                l.dedup();
+                let (r2, a2) = (res.clone(), amb.clone());
+                cells.push(CellDef::new("C15", format!("P32E2/{}#hard", u.name), Space::list32(l, "worst inputs found by complete 2^32 sweeps, +-2 encodings"), move |k| un_case(&r2, &u, k, &a2)));
+            }
+        }
+    }
     // binary functions
     struct Bi {
         name: &'static str,
